@@ -135,9 +135,9 @@ func genConcScenario(r *verifrt.Rand, i int) *concScenario {
 		// point of taking the upload lock, uploader 1 d2 steps after it reached that
 		// point, then 0 finishes, the others run, and 1 finishes last: for all
 		// d1, d2 in 0..8 (lock, look for the record, send, answer, record, remove,
-		// unlock) and a first answer that is none, a server error or success
+		// unlock) and a first answer that is none, a server error, success or a client error
 		j := i / 6
-		d1, d2, first := j%9, (j/9)%9, []int{0, 500, 200}[(j/81)%3]
+		d1, d2, first := j%9, (j/9)%9, []int{0, 500, 200, 400}[(j/81)%4]
 		if s.N < 3 {
 			s.N = 3
 		}
@@ -178,7 +178,7 @@ func TestVerifUploadConc(t *testing.T) {
 	if verifrt.Thorough() {
 		nb = 128
 	}
-	total := verifrt.Scale(1600, 80000)
+	total := verifrt.Scale(2000, 80000)
 	per := (total + nb - 1) / nb
 	agg := verifrt.NewResult("conc")
 	verifrt.RunBatches("TestVerifUploadConc", agg, nb, 0, 40*time.Minute, "upload.death", func(b int, r *verifrt.Result, cur *verifrt.Current) {
